@@ -142,6 +142,72 @@ fn assignment_case(job: &Job) {
     mc::describe(|| json!({"op": "bbd_clustering", "points": pts, "centroids": cents, "membership": r.membership, "counts": r.counts, "sums": r.sums, "distortion": r.distortion}));
 }
 
+/// Assignment step on larger structured data sets (tree cells with many rows, 1..3 dimensions):
+/// centroid sets are drawn from a small candidate list derived from the data.
+fn assignment_structured_case(job: &Job) {
+    let (n, dim, k, variant) = (job.u("n"), job.u("dim"), job.u("k"), job.u("variant"));
+    let pts: Vec<Vec<f64>> = if variant == 4 {
+        // a g x g grid plus an off-corner group
+        let g = (n as f64).sqrt() as usize;
+        let mut v: Vec<Vec<f64>> = (0..g * g).map(|i| (0..dim).map(|c| if c == 0 { (i % g) as f64 } else if c == 1 { (i / g) as f64 } else { ((i * 7) % 3) as f64 }).collect()).collect();
+        for j in 0..(n - g * g) {
+            v.push((0..dim).map(|c| g as f64 + 1.5 + ((j + c) % 2) as f64 * 0.5).collect());
+        }
+        v
+    } else {
+        structured_points(variant, n, dim)
+    };
+    // candidate centroids: some data rows, the mean, cell corners and a far point
+    let mean: Vec<f64> = (0..dim).map(|c| pts.iter().map(|r| r[c]).sum::<f64>() / n as f64).collect();
+    let lo: Vec<f64> = (0..dim).map(|c| pts.iter().map(|r| r[c]).fold(f64::INFINITY, f64::min)).collect();
+    let hi: Vec<f64> = (0..dim).map(|c| pts.iter().map(|r| r[c]).fold(f64::NEG_INFINITY, f64::max)).collect();
+    let mut cand: Vec<Vec<f64>> = vec![pts[0].clone(), pts[n / 3].clone(), pts[n / 2].clone(), pts[n - 1].clone(), mean.clone(), lo.clone(), hi.clone()];
+    cand.push((0..dim).map(|c| 0.75 * lo[c] + 0.25 * hi[c]).collect());
+    cand.push((0..dim).map(|c| if c % 2 == 0 { hi[c] + 0.5 * (hi[c] - lo[c]) } else { lo[c] }).collect());
+    cand.push((0..dim).map(|c| hi[c] + 3.0 * (hi[c] - lo[c] + 1.0)).collect());
+    let mut cents: Vec<Vec<f64>> = Vec::new();
+    let mut lo_i = 0usize;
+    for _ in 0..k {
+        let c = lo_i + mc::choose(cand.len() - lo_i);
+        lo_i = c;
+        cents.push(cand[c].clone());
+    }
+    let x: DenseMatrix<f64> = dm(&pts);
+    let cents2 = cents.clone();
+    let ctx = format!("structured variant {} n={} dim={} centroids {:?}", variant, n, dim, cents);
+    let Some(r) = mc::must_not_panic("bbd.clustering:structured", &ctx, move || vh::bbd_clustering(&x, &cents2)) else { return };
+    let mut want_dist = 0.0;
+    for i in 0..n {
+        let ds: Vec<f64> = cents.iter().map(|c| d2(&pts[i], c)).collect();
+        let best = ds.iter().cloned().fold(f64::INFINITY, f64::min);
+        want_dist += best;
+        let m = r.membership[i];
+        if m >= k || ds[m] > best + 1e-12 * (1.0 + best) {
+            mc::violation("bbd.clustering:structured:not-nearest", format!("{}: row {} = {:?} attached to centroid {} at d²={} but a centroid at d²={} is nearer", ctx, i, pts[i], m, if m < k { ds[m] } else { f64::NAN }, best));
+            return;
+        }
+    }
+    for j in 0..k {
+        let members: Vec<usize> = (0..n).filter(|i| r.membership[*i] == j).collect();
+        if r.counts[j] != members.len() {
+            mc::violation("bbd.clustering:structured:counts", format!("{}: count[{}]={} but {} rows attached", ctx, j, r.counts[j], members.len()));
+        }
+        for c in 0..dim {
+            let sm: f64 = members.iter().map(|i| pts[*i][c]).sum();
+            if (r.sums[j][c] - sm).abs() > 1e-9 * (1.0 + sm.abs()) {
+                mc::violation("bbd.clustering:structured:sums", format!("{}: sums[{}][{}]={} but attached rows sum to {}", ctx, j, c, r.sums[j][c], sm));
+            }
+        }
+    }
+    if (r.distortion - want_dist).abs() > 1e-9 * (1.0 + want_dist) {
+        mc::violation("bbd.clustering:structured:distortion", format!("{}: distortion {} but exhaustive search gives {}", ctx, r.distortion, want_dist));
+    }
+    mc::count("assignment_structured");
+    mc::nontrivial();
+    mc::outcome(mc::hash::mix(mc::hash::h_usizes(&r.membership), mc::hash::h_f64s_rounded(&[r.distortion], 10)));
+    mc::describe(|| json!({"op": "bbd_clustering", "structured_variant": variant, "n": n, "dim": dim, "centroids": cents, "counts": r.counts, "distortion": r.distortion}));
+}
+
 fn check_model(site: &str, pts: &[Vec<f64>], k: usize, model: &KMeans<f64>, ctx: &str, queries: &[Vec<f64>]) -> Option<(Vec<Vec<f64>>, Vec<usize>)> {
     let n = pts.len();
     let dim = pts[0].len();
@@ -183,7 +249,11 @@ fn check_model(site: &str, pts: &[Vec<f64>], k: usize, model: &KMeans<f64>, ctx:
             }
         }
     }
-    // predict: nearest centroid (ties: any)
+    // predict: nearest centroid (ties: any); the centroids themselves are queries too (a centroid
+    // whose cluster ended the fit empty must still be returned for rows nearest to it)
+    let mut queries: Vec<Vec<f64>> = queries.to_vec();
+    queries.extend(cents.iter().cloned());
+    let queries = &queries[..];
     let q: DenseMatrix<f64> = dm(queries);
     if let Some(res) = mc::must_not_panic(&format!("{}.predict", site), ctx, || model.predict(&q)) {
         match res {
@@ -374,6 +444,16 @@ impl Harness for C12 {
             jobs.push(Job::new("fit-1d-n3-k2-edges", json!({"kind": "fit", "n": 3, "dim": 1, "side": 4, "k": 2, "edges": true})));
             jobs.push(Job::new("fit-1d-n3-k3-edges", json!({"kind": "fit", "n": 3, "dim": 1, "side": 3, "k": 3, "edges": true})));
         }
+        // (a') assignment step on larger structured sets (big tree cells)
+        for &n in if t { &[36usize, 57, 100, 200][..] } else { &[36usize, 57][..] } {
+            for dim in [1usize, 2, 3] {
+                for k in [2usize, 3] {
+                    for variant in 0..5usize {
+                        jobs.push(Job::new(format!("assign-structured-v{}-n{}-d{}-k{}", variant, n, dim, k), json!({"kind": "assign-structured", "n": n, "dim": dim, "k": k, "variant": variant})));
+                    }
+                }
+            }
+        }
         // (c) structured, deviation-bounded seeding
         let ns: &[usize] = if t { &[12, 40, 120, 300] } else { &[12, 40] };
         for &n in ns {
@@ -394,9 +474,9 @@ impl Harness for C12 {
             jobs,
             budget_s: if t { 2400 } else { 40 },
             case_deadline_ms: 20_000,
-            floors: vec![("assignment_ties", 1000), ("coincident_centroids", 1000), ("far_centroids", 1000), ("duplicate_rows", 1000), ("fits_to_convergence", 1000), ("edge_schedules", 10), ("structured_fits", 100), ("final_empty_cluster", 10)],
+            floors: vec![("assignment_ties", 1000), ("coincident_centroids", 1000), ("far_centroids", 1000), ("duplicate_rows", 1000), ("fits_to_convergence", 1000), ("edge_schedules", 10), ("structured_fits", 100), ("final_empty_cluster", 10), ("assignment_structured", 1000)],
             bounds: json!({
-                "assignment_step": "every point sequence n<=4 (5 thorough) on {0..3} and n<=3 (4) on the 3x3 lattice x every centroid multiset of size 2,3 from the half-step grid plus far points",
+                "assignment_step_structured": "5 structured families (incl. grid + off-corner group), n in {36,57} (up to 200 thorough), 1..3 dimensions, every centroid multiset of size 2,3 from 10 data-derived candidates", "assignment_step": "every point sequence n<=4 (5 thorough) on {0..3} and n<=3 (4) on the 3x3 lattice x every centroid multiset of size 2,3 from the half-step grid plus far points",
                 "fit": format!("every such sequence (quick tier, 2-D with k=3: those starting at the lattice origin) with >=k distinct rows x k in {{2,3}} x max_iter in {{1,2,100}} x every first-index draw x every cutoff draw on a {}-point grid (covers every index of positive weight); edge answers u=0 and u=1-2^-53 on all instances in the thorough tier, on two small families in the quick tier", GRID),
                 "structured": "4 families, n up to 40 (300 thorough), 1..6 dimensions, k up to 8, seeding schedules with at most 1 (2) non-default answers",
             }),
@@ -406,6 +486,7 @@ impl Harness for C12 {
     fn run(&self, job: &Job) {
         match job.kind() {
             "assign" => assignment_case(job),
+            "assign-structured" => assignment_structured_case(job),
             "fit" => fit_case(job),
             "structured" => structured_case(job),
             other => panic!("unknown job kind {}", other),
